@@ -190,3 +190,95 @@ Definition refused (o : outcome) : bool :=
 Definition outcome_of (x : state * outcome * option pystr) : outcome := snd (fst x).
 Definition authz_results (l : list (state * result)) : list (outcome * option pystr) :=
   flat_map (fun sr => match snd sr with RAuthz o v => [(o, v)] | _ => [] end) l.
+
+(* ---- registration + request-object traces: client_d registers through the real registration endpoint, then the
+   trace runs on the provider AS THE MODEL says it is afterwards (not as observed) *)
+Inductive obs_reg :=
+| BRefused                                     (* an error came back, the client database has no new entry *)
+| BStored (echo stored read : regalg).         (* 201: request_object_signing_alg in the response / in the client
+                                                  database / returned by the registration-read endpoint *)
+Definition regalg_eqb (a b : regalg) : bool :=
+  match a, b with
+  | RAbsent, RAbsent => true
+  | RStr x, RStr y => str_eqb x y
+  | RList x, RList y => list_eqb str_eqb x y
+  | _, _ => false
+  end.
+(* (assigned client_id, requested algorithm, rest acceptable?, request_uris) *)
+Definition regq := (pystr * option pystr * bool * option (list pystr))%type.
+Definition rcase := (cfgvar * regq * obs_reg * docs * Z * list (op * obs))%type.
+Definition regreq_of (b : cbase) (q : regq) : regreq :=
+  let '(cid, alg, ok, rus) := q in
+  let '(red, rts) := find_base b cid in
+  {| rq_alg := alg; rq_ok := ok;
+     rq_rest := {| c_id := cid; c_reg := RAbsent; c_redirect := red; c_request_uris := rus; c_rtypes := rts;
+                   c_enc_alg := None; c_enc_enc := None |} |}.
+Definition chk_reg_compact (j : list (pystr * list (kty * nat))) (b : cbase) (dp : list pystr) (c : rcase) : bool :=
+  let '(v, q, ro, d, t0, tr) := c in
+  let g := expand j b dp v in
+  match register g (regreq_of b q), ro with
+  | RegRefused, BRefused => chk_case (g, d, t0, tr)
+  | RegStored g' ci, BStored e s r =>
+      regalg_eqb (c_reg ci) e && regalg_eqb (c_reg ci) s && regalg_eqb (c_reg ci) r && chk_case (g', d, t0, tr)
+  | _, _ => false
+  end.
+Definition diag_reg_compact (j : list (pystr * list (kty * nat))) (b : cbase) (dp : list pystr) (c : rcase)
+  : option regalg * list result :=
+  let '(v, q, ro, d, t0, tr) := c in
+  let g := expand j b dp v in
+  match register g (regreq_of b q) with
+  | RegStored g' ci => (Some (c_reg ci), model_results (g', d, t0, tr))
+  | _ => (None, model_results (g, d, t0, tr))
+  end.
+
+Definition s_cd := PS "client_d".
+Definition s_rd := PS "https://client_d.example.com/cb".
+Definition s_es384 := PS "ES384".
+Definition s_es512 := PS "ES512".
+Definition s_rs512 := PS "RS512".
+Definition s_ps256 := PS "PS256".
+Definition s_ps384 := PS "PS384".
+Definition s_ps512 := PS "PS512".
+Definition s_hs384 := PS "HS384".
+Definition s_hs512 := PS "HS512".
+Definition s_ind := PS "ind".
+Definition s_outd := PS "outd".
+(* the example provider before client_d registers: the key jar already holds the keys client_d will register (an RSA
+   key 12, a P-256 key 13, its secret 14, a P-384 key 15); the provider's OWN keys are an RSA and a P-256 key only *)
+Definition ex_cfg_r (prov : list pystr) : cfg :=
+  let g := ex_cfg true RAbsent in
+  {| oidc := oidc g; has_par := has_par g; methods := methods g; methods_configured := methods_configured g; hooks := hooks g;
+     par_hooks := par_hooks g; prov_algs := prov; ru_supported := ru_supported g; ttl := ttl g;
+     jar := (ex_jar ++ [(s_cd, [(KRsa, 12%nat); (KEc, 13%nat); (KEc, 15%nat); (KOct, 14%nat)])])%list;
+     clients := clients g; prov_enc_algs := prov_enc_algs g; prov_enc_encs := prov_enc_encs g |}.
+Definition ex_regreq (alg : option pystr) : regreq :=
+  {| rq_alg := alg; rq_ok := true; rq_rest := ex_client s_cd s_rd RAbsent |}.
+Definition ex_outer_d : params :=
+  [(k_client_id, PS_ s_cd); (k_redirect_uri, PS_ s_rd); (k_scope, PL_ [s_openid]); (k_state, PS_ s_out0);
+   (k_response_type, PL_ [s_code]); (k_request, PS_ s_jws)].
+(* what the provider answers, after the registration, to client_d's objects signed ES384 (P-384 key) / RS256 (its RSA key) /
+   HS256 (its secret) / not at all: did the object's parameters take effect? *)
+Definition ex_after_registration (prov : list pystr) (alg : option pystr) : option (regalg * list bool) :=
+  match register (ex_cfg_r prov) (ex_regreq alg) with
+  | RegStored g' ci =>
+      Some (c_reg ci,
+            List.map (fun w => took_effect (outcome_of (authz_parse g' [] (init 0) ex_outer_d (Some w))))
+              [wgen s_es384 (ex_claims s_cd s_rd) 15; wgen s_rs256 (ex_claims s_cd s_rd) 12;
+               wgen s_hs256 (ex_claims s_cd s_rd) 14; WObj s_none (ex_claims s_cd s_rd) None])
+  | _ => None
+  end.
+(* many static parts in one case file: each case names its key jar / client base / default provider set by position *)
+Definition chk_reg_multi (js : list (list (pystr * list (kty * nat)))) (bs : list cbase) (dps : list (list pystr))
+  (c : (nat * nat * nat) * rcase) : bool :=
+  let '(ji, bi, di) := fst c in
+  match nth_error js ji, nth_error bs bi, nth_error dps di with
+  | Some j, Some b, Some dp => chk_reg_compact j b dp (snd c)
+  | _, _, _ => false
+  end.
+Definition diag_reg_multi (js : list (list (pystr * list (kty * nat)))) (bs : list cbase) (dps : list (list pystr))
+  (c : (nat * nat * nat) * rcase) : option regalg * list result :=
+  let '(ji, bi, di) := fst c in
+  match nth_error js ji, nth_error bs bi, nth_error dps di with
+  | Some j, Some b, Some dp => diag_reg_compact j b dp (snd c)
+  | _, _, _ => (None, [])
+  end.
